@@ -113,28 +113,30 @@ def powerOrder (m : List Event) (createEv : Option Event) (input : List Event) :
 
 /-! ## mainline -/
 
+/-- the recursive description `MainlineOf`, with fuel for the DEPTH of the recursion only
+    (an acyclic auth map has power-levels chains of at most |m| + 1 events) -/
 def mainlineOf (m : List Event) : Nat → List Event → List Event
   | 0, _ => []
-  | n + 1, ps => match ps with
-    | [] => []
-    | p :: rest => mainlineOf m n rest ++ (mainlineOf m n (plParents m p) ++ [p])
-termination_by n _ => n
+  | n + 1, ps => ps.foldr (fun p acc => acc ++ (mainlineOf m n (plParents m p) ++ [p])) []
 
 def mainline (m : List Event) (pl : Option Event) : List Event :=
   match pl with
   | none => []
-  | some e => mainlineOf m (2 * (m.length + 2) * (m.length + 2) + 2) [e]
+  | some e => mainlineOf m (m.length + 3) [e]
+
+/-- one list of the recursive description `Walk`; `down` walks the power-levels auth events of an event -/
+def walkList (m ml : List Event) (down : List Event → Nat × Nat → Nat × Nat) : List Event → Nat × Nat → Nat × Nat
+  | [], st => st
+  | p :: rest, st => match posOf ml p.eventID with
+    | some pos => (pos, st.2)
+    | none => walkList m ml down rest (down (plParents m p) (st.1, st.2 + 1))
 
 def walk (m ml : List Event) : Nat → List Event → Nat × Nat → Nat × Nat
   | 0, _, st => st
-  | n + 1, ps, st => match ps with
-    | [] => st
-    | p :: rest => match posOf ml p.eventID with
-      | some pos => (pos, st.2)
-      | none => walk m ml n rest (walk m ml n (plParents m p) (st.1, st.2 + 1))
+  | n + 1, ps, st => walkList m ml (walk m ml n) ps st
 
 def posSteps (m ml : List Event) (e : Event) : Nat × Nat :=
-  walk m ml (2 * (m.length + 2) * (m.length + 2) + 2) (plParents m e) (0, 0)
+  walk m ml (m.length + 3) (plParents m e) (0, 0)
 
 def insertSortedK (x : Event × OtherKey) : List (Event × OtherKey) → List (Event × OtherKey)
   | [] => [x]
